@@ -140,7 +140,7 @@ def special_trace_list(pos, graph):
     P = [v[0] for v in graph.values()]
     near = [(p[0] + 0.13, p[1] - 0.11) for p in P]
     n = len(P) - 1
-    idx = [(0, 2, 4), (0, 4, 1), (1, 3, 0), (4, 2, 0), (0, 4), (4, 0)]
+    idx = ps.span_idx(n)
     out = [[near[min(i, n)] for i in t] for t in idx]
     out.append([near[0], near[n], al.FAR[pos]])
     return out
@@ -159,6 +159,8 @@ def cases(tier):
         yield {"kind": "order", "gs": ms.explicit(g), "pos": pos, "name": name}
     for gs in ms.graph_slice("n3" if tier == "quick" else "n4e3"):
         yield {"kind": "listing", "gs": list(gs), "tier": tier}
+    for name, pos, g in ms.special_graphs():
+        yield {"kind": "listing", "gs": ms.explicit(g), "pos": pos, "name": name, "tier": tier, "bounded": True}
     nsh = 8
     for j in range(nsh):
         yield {"kind": "seeds", "shard": j, "nshards": nsh, "tier": tier}
@@ -210,6 +212,30 @@ def run_order(case, res):
     res["out"] = sorted(outs, key=repr)[:1000]
 
 
+def variants_bounded(graph):
+    """Larger graphs: a deviation-bounded family instead of all n! orders - identity, reversal, every rotation and every
+    adjacent transposition of the node order, each with the neighbour lists as given and all reversed, plus every single
+    neighbour list reversed."""
+    keys = list(graph)
+    n = len(keys)
+    orders = [keys, keys[::-1]] + [keys[r:] + keys[:r] for r in range(1, n)]
+    for i in range(n - 1):
+        o = list(keys)
+        o[i], o[i + 1] = o[i + 1], o[i]
+        orders.append(o)
+    seen = set()
+    for o in orders:
+        for rev in (False, True):
+            g = {k: (graph[k][0], list(graph[k][1][::-1] if rev else graph[k][1])) for k in o}
+            key = repr(list(g.items()))
+            if key not in seen:
+                seen.add(key)
+                yield g
+    for k0 in keys:
+        if len(graph[k0][1]) > 1:
+            yield {k: (graph[k][0], list(graph[k][1][::-1] if k == k0 else graph[k][1])) for k in keys}
+
+
 def variants(graph):
     """All node insertion orders x all permutations of each neighbour list."""
     keys = list(graph)
@@ -230,7 +256,9 @@ def run_listing(case, res):
         [list(t) for T in ((1, 2, 3) if thorough or len(graph) <= 2 else (1, 2)) for t in itertools.product(obs, repeat=T)] + \
         ([] if thorough or len(graph) <= 2 else [[obs[0]] + list(t) for t in itertools.product(obs[1:], repeat=2)])
     cfgs = [case["cfg"]] if "cfg" in case else LCFGS
-    vs = list(variants(graph))
+    vs = list(variants_bounded(graph) if case.get("bounded") else variants(graph))
+    if case.get("bounded") and "trace" not in case:
+        traces = special_trace_list(pos, graph)
     if "variant" in case:
         vs = [vs[0], ms.build_graph(case["variant"])]
     mps = [maps.inmem(g) for g in vs]
